@@ -31,6 +31,7 @@ KERNELS = {
     "C11": ["k_plus_minus_units", "k_numeric_cmp"],
     "C12": ["k_numeric_cmp", "k_value_eq_symmetric"],
     "C14": ["k_is_true", "k_and_or", "k_binop_short_circuit", "k_not"],
+    "C17": ["k_for_bounds"],
     "C26": ["k_str_slice", "k_str_insert", "k_str_index_length"],
     "C28": ["k_index_of", "k_set_nth", "k_append_join", "k_list_separator"],
     "C31": ["k_deg_mod"],
@@ -232,7 +233,10 @@ def lift_adjust(model, kind):
 STRUCTURAL_PROBES = {
     "k_plus_minus_units": [("1in - 1cm", "0.6062992126in"), ("1in + 1cm", "1.3937007874in"), ("1cm - 1in", "-1.54cm"),
                            ("1 + 1px", "2px"), ("1px - 1", "0px"), ("2 - 1px", "1px"), ("1s - 1ms", "0.999s"), ("90deg + 1turn", "450deg")],
-    "k_numeric_cmp": [("1in > 2cm", "true"), ("2cm > 1in", "false"), ("1in == 2.54cm", "true"), ("2.54cm == 1in", "true"),
+    "k_numeric_cmp": [("(1cm == 28.346456692913378pt) == (28.346456692913378pt == 1cm)", "true"),
+                      ("(1cm == 28.34645669291339pt) == (28.34645669291339pt == 1cm)", "true"),
+                      ("(5dppx == 480.0000000000001dpi) == (480.0000000000001dpi == 5dppx)", "true"),
+                      ("(1in == 96.00000000000001px) == (96.00000000000001px == 1in)", "true"), ("1in > 2cm", "true"), ("2cm > 1in", "false"), ("1in == 2.54cm", "true"), ("2.54cm == 1in", "true"),
                       ("1s < 1ms", "false"), ("1 < 2px", "true"), ("1px == 1", "false")],
     "k_value_eq_symmetric": [("() == map-remove((a: 1), a)", "true"), ("map-remove((a: 1), a) == ()", "true"), ("\"a\" == a", "true"),
                              ("a == \"a\"", "true"), ("(1 2) == (1 2)", "true"), ("1 == 1px", "false"), ("1px == 1", "false"), ("null == false", "false")],
@@ -244,6 +248,8 @@ STRUCTURAL_PROBES = {
                       ("join(a, (b, c))", "a, b, c"), ("append([a], b)", "[a b]")],
     "k_list_separator": [("list-separator((a, b))", "comma"), ("list-separator(a b)", "space"), ("list-separator(())", "space"), ("is-bracketed([a])", "true"),
                          ("is-bracketed(a b)", "false")],
+    "k_for_bounds": [("a { @for $i from 1in to 192px { b: $i } }", "a { b: 1in; }"), ("a { @for $i from 1 through 2px { b: $i } }", "a { b: 1; b: 2; }"),
+                     ("a { @for $i from 3px through 1 { b: $i } }", "a { b: 3px; b: 2px; b: 1px; }"), ("a { @for $i from 1cm to 30mm { b: $i } }", "a { b: 1cm; b: 2cm; }")],
     "k_and_or": [("inspect(() or 1)", "()"), ("null or 1", "1"), ("0 and 1", "1"), ("false and 1", "false"), ("\"\" or 2", "\"\""), ("inspect((null,) or 3)", "(null,)")],
     "k_binop_short_circuit": [("false and $undefined-variable", "false"), ("true or $undefined-variable", "true")],
     "k_is_true": [("if((), 1, 2)", "1"), ("if(unquote(\"\"), 1, 2)", "1"), ("if(0, 1, 2)", "1"), ("if(null, 1, 2)", "2")],
@@ -261,6 +267,12 @@ def structural_probe(kernel):
         return None
     diffs = []
     for src, want in probes:
+        if "{" in src:  # a whole stylesheet: the expected text must occur in the output
+            outs = [native.run_scss(src, prof) for prof in ("dev", "release")]
+            vals = [(" ".join(r["message"].split()) if r["outcome"] == "ok" else "<%s>" % r["outcome"]) for r in outs]
+            if any(want not in v for v in vals):
+                diffs.append({"scss": src, "want": want, "got": vals})
+            continue
         vals, outs = _css_value(src)
         if any(v != want for v in vals):
             diffs.append({"scss": src, "want": want, "got": vals})
@@ -368,6 +380,11 @@ def run(pid, tier, known, log, write_replay_file):
             for kid, k in known_ids.items():
                 if k.get("kernel") == kn and any(l in ob["obligation"] for l in k.get("labels", [])):
                     kmatch = k
+            if lf is not None and "probes" in lf and not lf.get("disagreements") and "structural" in (ob.get("solvers") or {}):
+                inconclusive.append(
+                    "E2 %s: structural obligation '%s' fails but all %d public-API probes of this kernel give the expected output: "
+                    "the code shape is probably not recognised" % (kn, ob["obligation"], lf["probes"]))
+                continue
             if lf is not None and lf.get("reproduced") is False:
                 inconclusive.append(
                     "E2 %s: solver model for '%s' does not reproduce through the public API (%s): encoding error"
